@@ -164,6 +164,60 @@ def backward_slice(body, local, limit=200):
     return src
 
 
+def deep_slice(A, body, local, g_callers, depth=3, seen=None):
+    """backward slice that follows integer parameters into the argument expressions of the local callers"""
+    sl = backward_slice(body, local)
+    out = dict(consts=set(sl["consts"]), calls=set(sl["calls"]), places=set(sl["places"]), unresolved_params=set())
+    seen = seen or set()
+    for p in sl["params"]:
+        if (body.name, p) in seen or depth <= 0:
+            out["unresolved_params"].add((short(body.name), p))
+            continue
+        seen.add((body.name, p))
+        callers = g_callers.get(body.name, [])
+        if not callers:
+            out["unresolved_params"].add((short(body.name), p))
+        for (cb, blk) in callers:
+            t = cb.blocks[blk]["term"]["t"]
+            if p - 1 >= len(t["args"]):
+                continue
+            o = t["args"][p - 1]
+            pl = o.get("copy") or o.get("move")
+            if pl is None:
+                if "const" in o and "fn" not in o:
+                    out["consts"].add(o["const"])
+                continue
+            sub = deep_slice(A, cb, pl["l"], g_callers, depth - 1, seen)
+            for k in ("consts", "calls", "places", "unresolved_params"):
+                out[k] |= sub[k]
+    return out
+
+
+def callers_index(A):
+    idx = {}
+    for n in A.facts.order:
+        b = A.facts.bodies[n]
+        if b.kind == "Promoted":
+            continue
+        for blk in b.blocks:
+            if blk["cleanup"]:
+                continue
+            t = blk["term"]["t"]
+            if t["k"] == "call":
+                c = M.callee_of(t)
+                if c is not None:
+                    nm = c[1] or c[0]
+                    if A.facts.body(nm) is not None:
+                        idx.setdefault(nm, []).append((b, blk["i"]))
+    return idx
+
+
+# graph-library entry points whose implementation was read and found to be iterative (explicit stack / queue):
+# petgraph 0.6 algo::toposort uses a DfsPostOrder-style explicit stack.  Everything else from petgraph::algo /
+# petgraph::visit is treated as of unknown stack behaviour (e.g. is_cyclic_directed -> recursive depth_first_search).
+VETTED_GRAPH_ALGOS = {"petgraph::algo::toposort"}
+
+
 def error_exit_blocks(A, body):
     """blocks that construct the error type or enter a panic"""
     out = set()
@@ -213,7 +267,29 @@ def check_C19(A, R, tier):
         on_cycle = any((n in comp) and (len(comp) > 1 or n in g.get(n, ())) for comp in comps)
         if not on_cycle:
             R.ob("R19.1", "%s is not recursive" % short(n), True)
+    # R19.3: graph-library algorithms reachable from the API are from the vetted (iterative) list
+    n_alg = 0
+    for n in sorted(reach):
+        b = A.facts.bodies.get(n)
+        if b is None or b.kind == "Promoted":
+            continue
+        for blk in b.blocks:
+            if blk["cleanup"]:
+                continue
+            t = blk["term"]["t"]
+            if t["k"] == "call":
+                nm = M.callee_name(t) or ""
+                gen = M.callee_of(t)[0] if M.callee_of(t) else ""
+                if gen.startswith("petgraph::algo::") or gen.startswith("petgraph::visit::") or nm.startswith("petgraph::algo::"):
+                    n_alg += 1
+                    R.ob("R19.3", "%s | calls %s | graph algorithm with vetted (iterative) implementation" % (short(n), gen),
+                         gen in VETTED_GRAPH_ALGOS,
+                         detail="%s is not on the list of graph-library algorithms whose implementation was checked to use an explicit "
+                                "stack; a recursive traversal overflows the native stack on deep graphs" % gen,
+                         site=blk["term"]["span"]["s"].split(": ")[0])
+    R.floor("R19.3", "graph-library algorithm calls", n_alg, 1)
     # R19.2: fixed numeric limits that lead to an error
+    cidx = callers_index(A)
     n_cmp = 0
     for n in sorted(reach):
         b = A.facts.bodies.get(n)
@@ -260,23 +336,33 @@ def check_C19(A, R, tier):
             if cmpst["span"].get("exp") and "assert" in str(cmpst["span"].get("s", "")):
                 continue
             n_cmp += 1
-            scaled = False
-            fixed = []
+            sides = []
             for o in (cmpst["r"]["a"], cmpst["r"]["b"]):
                 pl = o.get("copy") or o.get("move")
                 if pl is None:
-                    if "const" in o:
-                        fixed.append(o["const"])
+                    sides.append(dict(kind="const", consts={o.get("const")}, calls=set()))
                     continue
-                sl = backward_slice(b, pl["l"])
-                if any(c.endswith("::len") or "node_count" in c or "edge_count" in c for c in sl["calls"]):
-                    scaled = True
-                elif sl["consts"] and not sl["params"] and not sl["calls"] and not sl["places"]:
-                    fixed.extend(sorted(sl["consts"]))
-            R.ob("R19.2", "%s | numeric limit leading to an error is scaled by the size of the graph" % short(n),
-                 scaled or not fixed,
-                 detail="comparison against the fixed bound %s decides an error exit" % ", ".join(fixed),
-                 site=A.site(cmpst))
+                sl = deep_slice(A, b, pl["l"], cidx)
+                sized = any(c.endswith("::len") or "node_count" in c or "edge_count" in c for c in sl["calls"])
+                if sized:
+                    kind = "sized"
+                elif not sl["calls"] and not sl["places"] and not sl["unresolved_params"]:
+                    kind = "const"
+                else:
+                    kind = "other"
+                sides.append(dict(kind=kind, consts=sl["consts"], calls=sl["calls"]))
+            ks = sorted(x["kind"] for x in sides)
+            okc = True
+            why = ""
+            if ks == ["const", "const"]:
+                okc, why = False, "both sides derive from constants only (%s): a fixed limit decides an error exit" % sorted(
+                    c for x in sides for c in x["consts"] if c)
+            elif ks == ["sized", "sized"]:
+                okc, why = False, ("both the counter and its bound depend on collection sizes (%s): the counter no longer counts "
+                                   "rounds, so the limit is not a bound that scales with the graph"
+                                   % sorted(short(c) for x in sides for c in x["calls"] if c.endswith("::len")))
+            R.ob("R19.2", "%s | a numeric limit that decides an error exit compares a constant-step counter with a size-scaled bound" % short(n),
+                 okc, detail=why, site=A.site(cmpst))
     R.info["limit_comparisons"] = n_cmp
     R.explanation = ("Call graph (A7) over all %d crate-local bodies with resolved callees, closures and fn items: every strongly "
                      "connected component reachable from the public API is a native recursion whose depth is a path length of the "
@@ -1134,3 +1220,170 @@ def check_C05(A, R, tier):
 def is_direct_nbr_of_sig(v):
     par, d = nbr_parent(v["key"])
     return isinstance(par, tuple) and len(par) > 3 and par[3] == "sig"
+
+
+# =============================================================================================
+def gate_functions(A):
+    """local functions f(.., key) -> bool that return false as soon as one Incoming neighbour of the key
+    is not finished ('all upstreams done' gates), found by their behaviour"""
+    from interp import Interp, Config
+    C = A.classes()
+    nonfin = frozenset(A.JS) - C["Finished"]
+    out = {}
+    for b in A.evaluator_methods():
+        if b.locals[0]["s"] != "bool" or b.vis == "Public":
+            continue
+        if not any(b.locals[i]["s"] == "usize" for i in range(1, b.arg_count + 1)):
+            continue
+        res = loop_gate_summary(A, b)
+        if res is not None:
+            out[b.name] = res
+    return out
+
+
+def loop_gate_summary(A, body):
+    """For f(.., key) -> bool with a single neighbour loop: the set of neighbour states for which one
+    iteration can complete without returning false; None if the function has no such shape."""
+    from interp import Interp, Config, State
+    I = Interp(A.facts, A.uni, A.layout, Config(label="GATE"))
+    fr, out, col = I.analyze(body)
+    ins = col["ins"]
+    nb = [v for k, v in I.rec.facts.items() if k[0] == "neighbors" and v["fid"] == fr.fid and v["dir"] == "Incoming"
+          and is_role(v["key"], "param")]
+    if len(nb) != 1:
+        return None
+    heads = [h for (_, h) in body.back_edges()]
+    heads = [h for h in set(heads) if body.term(h)["k"] == "call" and (M.callee_name(body.term(h)) or "").endswith("::next")]
+    if len(heads) != 1:
+        return None
+    h = heads[0]
+    loop = body.natural_loop(h)
+    sw = body.term(h)["t"]
+    somes = [s_ for s_ in body.succs(sw) if s_ in loop]
+    sym = ("b", fr.fid, h, "nbr")
+    cont_ok = set()
+    from domain import av_set
+    for d in A.JS:
+        for s0 in somes:
+            if s0 not in ins:
+                continue
+            st = ins[s0].copy()
+            hk = ("job", sym)
+            cell = st.heap.get(hk)
+            if cell is None or cell[0] != "adt":
+                return None
+            st.heap[hk] = av_set(cell, (("f", A.L.state_field),), fin(A.L.jobstate, [d]), A.uni)
+            col2 = {}
+            ex = I.run(fr, st, start=s0, stops={h}, collect=col2)
+            # the iteration "passes" if it gets back to the header or returns true
+            if h in col2["stops"]:
+                cont_ok.add(d)
+            if ex is not None:
+                rv = ex.locals.get((fr.fid, 0))
+                if rv is None or rv[0] != "fin" or (1,) in rv[2]:
+                    cont_ok.add(d)
+    # with no neighbours at all the result
+    return dict(passing=frozenset(cont_ok), dir="Incoming")
+
+
+@prop("C02")
+def check_C02(A, R, tier):
+    C = A.classes()
+    K = kinds(A)
+    H = A.handler_runs()
+    T = A.transitions()
+    gates = gate_functions(A)
+    good_gates = set(n for n, g in gates.items() if g["passing"] <= C["Finished"])
+    R.info["gate_functions"] = dict((short(n), A.snames(g["passing"])) for n, g in gates.items())
+    R.floor("R2.1", "functions that test 'all direct upstreams finished'", len(good_gates), 1)
+    # states that are only ever entered under the gate
+    def gated_fact(v, sym):
+        for (gk, val) in v.get("ghosts", ()):
+            name = gk[0]
+            if name.startswith("ret:") and name[4:] in good_gates and str(sym) in gk[2] and val is not None and set(val) == {(1,)}:
+                return True
+        return False
+    gated_states = set(A.JS)
+    entered = {}
+    for t in T:
+        w = t["w"]
+        for to in w["to"]:
+            if to in w["frm"]:
+                continue
+            g = False
+            # ghosts are recorded with pushes/errors, not with writes: look for the gate in the write's own context
+            run = t["run"]
+            for (k_, v) in run.items("write_state"):
+                pass
+            entered.setdefault(to, []).append((t, w))
+    # a write is gated if the abstract state at the write knows the gate returned true for the written key
+    gated_entry = {}
+    for to, lst in entered.items():
+        gated_entry[to] = all(write_is_gated(A, t, w, good_gates) for (t, w) in lst)
+    R.info["states_entered_only_under_the_gate"] = A.snames([s for s, g in gated_entry.items() if g])
+    n = 0
+    for (k, s), run in H.items():
+        for v in run.by_kind("push_signal"):
+            if v["container"] == "queue" or K["ready"] not in v["kinds"]:
+                continue
+            n += 1
+            sym = v["key"][0]
+            own = None
+            for c in v["cells"]:
+                if c[0] == sym:
+                    own = c[1]
+            ok = gated_fact(v, sym)
+            why = "the ready signal is emitted without a successful 'all upstreams finished' test for the same job"
+            if not ok and own is not None and all(gated_entry.get(o, False) for o in own):
+                ok = True
+            R.ob("R2.1", "%s | %s handler from %s | a job is announced ready only after all its direct upstreams finished"
+                 % (short(v["fn"]), A.kname(k), A.sname(s)), ok and is_role(v["key"], "sigtarget") and set(v["kinds"]) == {K["ready"]},
+                 detail=why, site=A.site(v))
+    R.floor("R2.1", "emissions of the ready signal", n, 4)
+    # the ready signal comes from nowhere else
+    for name in list(EVENTS) + ["abort_remaining", "event_startup"]:
+        b = A.evaluator_fn(name)
+        runs = [A.startup_run()] if name == "event_startup" else ([A.joined_run(b)] if name == "abort_remaining" else list(A.event_runs(name).values()))
+        has = any(K["ready"] in v["kinds"] for r_ in runs for v in r_.by_kind("push_signal"))
+        R.ob("R2.1", "%s | does not announce jobs ready itself" % name, not has)
+    # R2.2: Ready is entered only by the ready handler (so the gate above guards every offer), finished is stable (R17.2)
+    for t in T:
+        w = t["w"]
+        for f in sorted(w["frm"]):
+            for to in sorted(w["to"]):
+                if to in C["Ready"] and f not in C["Ready"]:
+                    R.ob("R2.2", tkey(A, t, f, to) + " | only the ready handler offers a job",
+                         t["ctx"][0] == "handler" and t["ctx"][1] == K["ready"] and is_role(w["key"], "sigtarget"), site=A.site(w))
+                if f in C["Finished"]:
+                    R.ob("R2.2", tkey(A, t, f, to) + " | a finished upstream stays finished", to in C["Finished"], site=A.site(w))
+    # R2.3: get_job_output reports the field the success event stored
+    gjo = A.evaluator_fn("get_job_output")
+    r = A.joined_run(gjo)
+    R.ob("R2.3", "get_job_output reads the job looked up by its argument", any(v["op"] == "get" and v["target"] == ("self", A.L.idmap_field)
+                                                                               for v in r.by_kind("map_op")))
+    R.explanation = ("Necessary condition (gate clause): functions that behave as 'all direct upstreams finished' are identified by "
+                     "abstractly running one loop iteration per neighbour state; every emission of the ready signal must carry the "
+                     "fact that such a gate returned true for the same job (ghost of the call result, refined by the branch) or come "
+                     "from a state that is only entered under that gate; only the ready handler enters the offered class, and finished "
+                     "states are stable.  Not decided: 'without failure', 'Ephemeral upstream executed and not cleaned up'.")
+    R.assume("requirement propagation across the graph (which decides whether an Ephemeral upstream was executed) is not decided")
+
+
+def write_is_gated(A, t, w, good_gates):
+    """is the state write dominated by gate(key)=true?  Uses the ghosts of a fact recorded after the write in the
+    same activation (emissions carry ghosts) or a gate call whose true-edge dominates the write."""
+    run = t["run"]
+    body = A.facts.body(w["fn"])
+    sym = w["key"][0]
+    for v in run.by_kind("call"):
+        if v["fid"] != w["fid"] or v["callee"] not in good_gates:
+            continue
+        # the call's result is switched on in its target block: the write must be dominated by the true successor
+        tb = body.term(v["bb"])["t"]
+        tt = body.term(tb)
+        if tt["k"] != "switch":
+            continue
+        true_succ = tt["otherwise"]
+        if body.dominates(true_succ, w["bb"]) and true_succ != tb:
+            return True
+    return False
